@@ -29,7 +29,7 @@ MANIFEST = dict(
         "linesearch_methods_monotone_lbfgs_modelled (lbfgs_two_loop_is_matrix: for every history length the two loops of multBInv compute M x where M is (1/bdiag) I followed by one BFGS inverse update per stored pair, and M is symmetric positive definite because updateHist only stores pairs with y's > 1e-10; lbfgs_direction_descent), "
         "linesearch_methods_monotone_cg_modelled (CG with the modelled wolfecubic or backtracking on every objective with a monotone gradient, i.e. every convex objective incl. all strictly convex quadratics: cg_direction_nonascent shows that periodic reset, restart branch and Dai-Yuan update give non-ascent directions whenever d'(g - g_old) >= 0, with the identity g'd_new = |g|^2 (g_old'd)/(d'(g-g_old)); wolfecubic_ray/backtracking_ray: only non-negative step lengths are tried); "
         "cg_negative_curvature_witness (without the curvature hypothesis the Dai-Yuan direction can be an ascent direction: the C++ tests |d'(g-g_old)|, not its sign), linesearch_methods_monotone_partial (any model, any line search: one step, given a non-ascent direction); "
-        "(3) TrustRegionNewton: trn_step_no_increase_partial (the acceptance rule rho >= minImprovementRatio >= 0 never increases the objective when the sub-problem predicts no increase), trn_cg_inside / trn_cg_interior_inside (every non-boundary exit of CG-Steihaug returns a step strictly inside the radius: the loop tests before it moves), trn_border_on_sphere (boundary exits land on the sphere |z + tau d| = delta when sqrt is exact at the discriminant); "
+        "(3) TrustRegionNewton: trn_step_no_increase_partial (the acceptance rule rho >= minImprovementRatio >= 0 never increases the objective when the sub-problem predicts no increase), trn_subproblem_predicts_decrease (Lemmas/TrustRegion.lean: for a symmetric Hessian of ANY definiteness the CG-Steihaug loop keeps residual = g + H step, residual'direction = -|residual|^2 and m(step) <= 0, what it returns at an interior exit is m(step), so every interior exit predicts no increase; cgLoop_decrease), toBorder_nonpos + border_tau_bounds (a boundary exit from an invariant state inside the radius predicts no increase too when sqrt is exact and non-negative at the one discriminant it is applied to: then 0 < tau, and tau <= alpha in the positive-curvature case; toBorder_value: the returned number is m(step) - tau |r|^2 + tau^2 d'Hd / 2), trn_cg_inside / trn_cg_interior_inside (every non-boundary exit of CG-Steihaug returns a step strictly inside the radius: the loop tests before it moves), trn_border_on_sphere (boundary exits land on the sphere |z + tau d| = delta when sqrt is exact at the discriminant); "
         "(4) box constraints: box_feasible_inv_rprop, coords_ok, box_direction_feasible_partial + box_direction_touching_witness (F-C10-12), box_direction_descent, box_direction_nonzero and the *_repaired variants (selected from the source by translate/lbfgs_box.py); lbfgs_multBInv_pos discharges the hypothesis p0'B^-1p0 > 0 of box_direction_descent when no coordinate is blocked; box_linesearch_feasible (x in the box, x + d in the box, initial step in [0,1] => the point returned by the backtracking line search is in the box, exactly: composes with box_direction_feasible_* to one-step feasibility of box-constrained L-BFGS); "
         "(5) save/restore: sd/adam/rprop/ls/trn_step_reads_archived (member lists regenerated from the C++ read/write bodies by translate/opt_fields.py on every run), resume_same_iterates; "
         "(6) wolfecubic as shipped reads its bracket arrays uninitialised when the bracketing loop runs out of iterations: the model has their content as a parameter, wolfecubic_contract_partial (hypothesis WolfeBracketed) + wolfecubic_uninitialised_witness (finding F-C10-16); translate/linesearch.py recognises which declaration the tree contains and pins the text of wolfecubic and the constants of wolfecubic/dlinmin. "
@@ -44,10 +44,10 @@ MANIFEST = dict(
         "convergence oracle (numerical, KKT residual <= 1e-6(1+||b||_inf)) after 300/400/1000 steps on strictly convex quadratics incl. box-constrained L-BFGS with active upper and lower bounds; "
         "save/restore at random step indices through text and binary archives into a 0xFF-poisoned fresh instance, strict and lenient protocol; input distribution (optimizer, objective, dimension, steps, saves, re-initialisations, steps before first save, history sizes, variants, boundary classes) recorded in the evidence."),
   note=TRUST + "NOT proved (exercised by correspondence / oracle only): finiteness of the iterates; convergence on strictly convex quadratics (cg_exact_linesearch_n_steps is not proved: numerical KKT oracle in the harness, tolerance as stated); "
-       "that trustRegionCG only ever predicts a decrease (hypothesis of trn_step_no_increase_partial, checked on the tied model at every step) and that the boundary step length tau is >= 0; "
+       "for TrustRegionNewton the composition 'acceptance never increases' is proved up to exactness of sqrt at the boundary exits (interior exits: unconditional for symmetric Hessians; boundary exits: toBorder_nonpos under the exact-sqrt hypothesis; both facts are also checked on the tied Float model at every step); "
        "CG with dlinmin over whole runs (dlinmin may step backwards along the direction; only the one-step statement applies) and CG on non-convex objectives (the Dai-Yuan direction can be an ascent direction: witness theorem; oracle `increased` on every Rosenbrock step); "
        "p0'Bp0 > 0 in box_direction_descent/nonzero (multB, the compact representation with BLAS, is a parameter of the model; p0'B^-1p0 > 0 is proved only for the un-blocked case via lbfgs_multBInv_pos); whole-run monotonicity of BOX-CONSTRAINED L-BFGS (direction theorems only). "
-       "Partial theorems and why: wolfecubic_contract_partial (the tree as shipped reads uninitialised arrays when bracketing fails: genuine defect F-C10-16, witness theorem); box_direction_feasible_partial (F-C10-12, witness); trn_step_no_increase_partial (unproved CG fact, no counterexample: with the F10 sign error the prediction was positive); trn_border_on_sphere (sqrt exact at one argument: floating point is not). "
+       "Partial theorems and why: wolfecubic_contract_partial (the tree as shipped reads uninitialised arrays when bracketing fails: genuine defect F-C10-16, witness theorem); box_direction_feasible_partial (F-C10-12, witness); trn_step_no_increase_partial (its hypothesis is discharged by trn_subproblem_predicts_decrease / toBorder_nonpos except for the exactness of sqrt: floating point is not exact; with the F10 sign error the prediction was positive); trn_border_on_sphere (sqrt exact at one argument: floating point is not). "
        "Order statements are over Rat (exact arithmetic); statements without arithmetic hold for every scalar type incl. the Float instance the driver runs. "
        "Open findings on the unpatched tree (known_findings.json, findings_proposed/C10.md): F-C10-15 (low severity: box-constrained L-BFGS freezes at relative accuracy 1e-5 when a movable variable is 1e-12 from the bound it moves to), F-C10-16 (wolfecubic uninitialised bracket arrays; outside the generated objective family, reached by the corpus input with a linear objective); the check is green on the tree with the proposed patches and follows them automatically.",
   technique="Lean 4 invariant/refinement proofs over all step sequences and loop iterations (fuel) + differential correspondence with the C++ (ASan/UBSan), bit-exact and exact-rational modes; independent numerical oracles in the harness",
@@ -730,7 +730,7 @@ def run(ctx):
                     "hand-written models Model/GradOpt.lean, Model/LineSearches.lean, Model/TrustRegion.lean, Model/Objectives.lean",
                     "ASan/UBSan runtime for the real code's memory safety (not a theorem)"]
     translate(ctx)
-    PROPS = ["SharkVerif.Props.C10", "SharkVerif.Props.C10Deep", "SharkVerif.Lemmas.LineSearches", "SharkVerif.Lemmas.LBFGS", "SharkVerif.Gen.LineSearchSrc"]
+    PROPS = ["SharkVerif.Props.C10", "SharkVerif.Props.C10Deep", "SharkVerif.Lemmas.LineSearches", "SharkVerif.Lemmas.LBFGS", "SharkVerif.Lemmas.TrustRegion", "SharkVerif.Gen.LineSearchSrc"]
     ctx.prove(PROPS)
     if not ctx.quick:
         ctx.leanchecker(PROPS)
